@@ -197,6 +197,10 @@ def jobs(tier):
         j = L0(fn, props, harness='l0_small.c', defines=['SMALL_' + fn], replace=repl)
         j['shape'] = 'all 256 character values / any table size up to 4 x capacity, capacity 6..4096 symbolic'
         J.append(j)
+    J.append({'id': 'L0.set_cmd_state.plain', 'props': ['C02', 'C03'], 'harness': '../twins/l0_lanes_plain.c', 'extra_inputs': ['twins/l0_lanes_plain.c'], 'dfcc': False,
+              'function': 'set_cmd_state', 'replace': [], 'loop_contracts': False, 'defines': ['MAX_CAP=4096'], 'expect': [], 'label': 'unbounded', 'timeout': 600, 'replay': None,
+              'cbmc_flags': [], 'tiers': ['quick', 'thorough'],
+              'shape': 'contract-free twin of the lane leaf: real set_cmd_state, lanes read back in the harness; capacity 6..4096 symbolic, any index, both layouts (loop-free, complete)'})
     J.append({'id': 'L0.get_new_line_chars', 'props': ['C11', 'C20', 'C01', 'C03'], 'harness': 'l0_get_new_line_chars.c', 'dfcc': False, 'function': 'get_new_line_chars', 'replace': [],
               'loop_contracts': False, 'defines': ['V_NO_CRLF_ASSUME'], 'expect': [], 'label': 'unbounded', 'timeout': 120, 'replay': None, 'cbmc_flags': [], 'tiers': ['quick', 'thorough'],
               'shape': 'no dfcc: real static initialiser'})
